@@ -189,6 +189,29 @@ class _SelfSends:
         return n
 
 
+def _subscribe(it):
+    """a subscriber that records what it SEES: the configuration, and the configuration of the snapshot it takes there
+    (C01 names subscriber callbacks and snapshots as observation points) - kept apart from the record log"""
+    seen = []
+
+    def cb(i):
+        if len(seen) < 5000:
+            ids = sorted(n.id for n in i._active_state_nodes)
+            try:
+                snap = sorted(i.get_persisted_snapshot().get("configuration") or [])
+            except Exception as x:      # noqa: BLE001
+                snap = ["SNAPSHOT-RAISED:" + type(x).__name__]
+            seen.append([ids, snap])
+    it.subscribe(cb)
+    return seen
+
+
+def _take(seen):
+    out = list(seen)
+    del seen[:]
+    return out
+
+
 def observe(it, log, err="", nerr=0, cuts=0):
     ids = sorted(n.id for n in it._active_state_nodes)
     hist = {k: [n.id for n in v] for k, v in it._history.items()}
@@ -241,6 +264,7 @@ def run_sync(case):
     machine = create_machine(copy.deepcopy(case["machine"]), logic=mklogic(log, case["guards"]))
     it = SyncInterpreter(machine)
     it.use(RecorderPlugin(log))
+    subs = _subscribe(it)
     cnt = _COUNTER
     cnt.reset()
     ss = _SelfSends(it, False)
@@ -249,7 +273,7 @@ def run_sync(case):
         out.append(observe(it, log, cuts=cnt.cuts))
     except XStateMachineError as x:
         out.append(observe(it, log, type(x).__name__, cuts=cnt.cuts))
-    out[-1].update(chain_cuts=cnt.chain_cuts, self_sends=ss.take())
+    out[-1].update(chain_cuts=cnt.chain_cuts, self_sends=ss.take(), SUB=_take(subs))
     for op in case_ops(case):
         log.clear()
         cnt.reset()
@@ -264,7 +288,7 @@ def run_sync(case):
             out.append(observe(it, log, type(x).__name__, cuts=cnt.cuts))
         out[-1]["can"] = can
         out[-1]["can_mutated"] = mutated
-        out[-1].update(chain_cuts=cnt.chain_cuts, self_sends=max(0, ss.take()))
+        out[-1].update(chain_cuts=cnt.chain_cuts, self_sends=max(0, ss.take()), SUB=_take(subs))
     it.stop()
     return out
 
@@ -339,6 +363,7 @@ async def _run_async(case):
     machine = create_machine(copy.deepcopy(case["machine"]), logic=mklogic(log, case["guards"]))
     it = Interpreter(machine)
     it.use(RecorderPlugin(log))
+    subs = _subscribe(it)
     cnt = _COUNTER
     cnt.reset()
     ss = _SelfSends(it, True)
@@ -346,7 +371,7 @@ async def _run_async(case):
         await it.start()
         await _drain(it)
         out.append(observe(it, log, nerr=cnt.n, cuts=cnt.cuts))
-        out[-1].update(chain_cuts=cnt.chain_cuts, self_sends=ss.take())
+        out[-1].update(chain_cuts=cnt.chain_cuts, self_sends=ss.take(), SUB=_take(subs))
     except XStateMachineError as x:
         out.append(observe(it, log, type(x).__name__))
         return out
@@ -362,7 +387,7 @@ async def _run_async(case):
         out.append(observe(it, log, nerr=cnt.n, cuts=cnt.cuts))
         out[-1]["can"] = can
         out[-1]["can_mutated"] = mutated
-        out[-1].update(chain_cuts=cnt.chain_cuts, self_sends=max(0, ss.take()))
+        out[-1].update(chain_cuts=cnt.chain_cuts, self_sends=max(0, ss.take()), SUB=_take(subs))
     await it.stop()
     return out
 
